@@ -410,6 +410,10 @@ vfs_fault_clear(vfs_t *v) {
   v->fault.kind_filter = 0;
   v->fault.fired = 0;
   v->fault.pending_err = 0;
+  v->fault.sel_kind = 0;
+  v->fault.sel_ord = 0;
+  v->fault.sel_seen = 0;
+  v->fault.sel_name[0] = 0;
 }
 
 int
@@ -577,6 +581,13 @@ fault_check(vfs_t *v, int kind, const char *name, size_t len, long *short_n) {
     f->fired++;
     errno = f->err;
     return 1;
+  }
+  if (f->sel_kind && kind == f->sel_kind && name && strstr(base_of(name), f->sel_name)) {
+    if (++f->sel_seen == f->sel_ord) {
+      f->fired++;
+      errno = f->err;
+      return 1;
+    }
   }
   if (f->at < 0)
     return 0;
